@@ -3245,6 +3245,9 @@ func (s *swamp) buildBeacon(beaconASC beacon.Beacon, beaconDESC beacon.Beacon, b
 
 	if !beaconASC.IsInitialized() {
 		beaconASC.SetInitialized(true)
+		if verifhook.Enabled {
+			verifhook.Point("beacon.build", int(bc), "asc")
+		}
 		beaconASC.PushManyFromMap(s.treasuresForBeacon(bc))
 		var err error
 		switch bc {
@@ -3289,6 +3292,9 @@ func (s *swamp) buildBeacon(beaconASC beacon.Beacon, beaconDESC beacon.Beacon, b
 
 	if !beaconDESC.IsInitialized() {
 		beaconDESC.SetInitialized(true)
+		if verifhook.Enabled {
+			verifhook.Point("beacon.build", int(bc), "desc")
+		}
 		beaconDESC.PushManyFromMap(s.treasuresForBeacon(bc))
 		var err error
 		switch bc {
